@@ -9,11 +9,11 @@ import traceback
 PKG = 'pyModelChecking'
 
 
-class InvariantBroken(Exception):
+class InvariantBroken(BaseException):
     pass
 
 
-class PostBroken(Exception):
+class PostBroken(BaseException):
     pass
 
 
@@ -59,7 +59,9 @@ class Log(object):
         self._kept[kkey] += 1
         if self._kept[kkey] <= self.MAX_KEEP:
             self.violations.append(rec)
-        if self.raising:
+        if self.raising and rec.get('finding') is None:
+            # replay mode: stop at the first violation that no listed finding
+            # explains
             raise PostBroken(json.dumps(rec, default=repr)[:2000])
 
     def sample(self, s, cap=6):
